@@ -226,6 +226,13 @@ theorem C09_close_keeps_own_hour (s : State) (h : Nat) :
     have : ¬ s.curr.id = k := fun x => hk x.symm
     simp [closeOp, advance, close, DB.get_put, this]
 
+/-- `New` reads the clock once: the opened state depends on the clock only
+through that one hour value (the hour it prunes by, loads the stored unit of,
+and gives the current unit). -/
+theorem C09_open_single_clock_read (s1 s2 : State) (l : Nat) (en : Bool)
+    (hdb : s1.db = s2.db) (hclock : s1.clock = s2.clock) : openOp s1 l en = openOp s2 l en := by
+  simp only [openOp, hdb, hclock]
+
 /-- A clean restart at a later hour keeps the previous current unit
 addressable under its own hour as long as that hour is not older than the new
 window (and one hour of slack). -/
